@@ -1085,6 +1085,9 @@ def c20(rec):
         steps.append(what)
         snap(len(steps), what)
 
+    if "t" not in rec and "f" in rec:      # a sampling problem (SampleGen): its tensor has -inf entries
+        rec = dict(rec)
+        rec["t"] = rec["f"]
     try:
         builder().build(rec["t"])      # registers leaves and intermediates
     except Exception:  # noqa
@@ -1104,6 +1107,22 @@ def c20(rec):
             if isinstance(dom.dtype, int) and not dom.shape:
                 run("subs", lambda: y(**{first: 0}))
                 run("reduce", lambda: y.reduce(funsor.ops.add if y.output.dtype == "real" else funsor.ops.max, first))
+    if isinstance(x, Tensor) and x.output.dtype == "real":
+        # ops that have (or could plausibly get) an in-place fast path, with the tensor on
+        # either side of a python number / Number / itself; safe ops on data that has -inf
+        fo = funsor.ops
+        run("max_number", lambda: fo.max(x, 0.5))
+        run("number_max", lambda: fo.max(0.5, x))
+        run("min_number", lambda: fo.min(x, Number(0.5)))
+        run("safesub", lambda: fo.safesub(x, x))
+        run("safediv", lambda: fo.safediv(x, x))
+        run("logaddexp_self", lambda: fo.logaddexp(x, x))
+        run("sub_number", lambda: x - 1.0)
+        run("abs_exp", lambda: fo.abs(x).exp())
+        if x.inputs:
+            first = next(iter(x.inputs))
+            run("reduce_max", lambda: x.reduce(fo.max, first))
+            run("reduce_logaddexp", lambda: x.reduce(fo.logaddexp, first))
     if isinstance(x, Tensor):
         names = tuple(reversed(list(x.inputs)))
         run("align", lambda: x.align(names))
